@@ -78,10 +78,39 @@ def run(chk):
             if fam in ("udn", "ldn", "udn2"):
                 o["nx_inter_sep"] = rng.randint(1, 3)
             eq_reqs.append(dict(family=fam, sign=sign, options=o))
-    rc, res, o, e = common.run_impl_json("impl/radial.py", dict(funcs=cases, eqs=eq_reqs), timeout=900)
+    # continuity in the parameters: geometric sweeps of the end-gradient ratio through all branch switches
+    delta = 0.004 if chk.tier == "quick" else 0.002
+    ratios = [0.3 * (1 + delta) ** k for k in range(int(math.log(6.0 / 0.3) / math.log(1 + delta)) + 1)]
+    sweep_reqs = []
+    for which in ("upper", "lower", "both"):
+        for (n, lo, up) in ((8, 0.2, 1.0), (16, 1.0, -0.3)) + (() if chk.tier == "quick" else ((5, -2.0, -1.0), (33, 0.0, 4.0))):
+            sweep_reqs.append(dict(which=which, n=n, lower=lo, upper=up, ratios=ratios, lower_factor=1.0 if which != "both" else 0.7))
+    rc, res, o, e = common.run_impl_json("impl/radial.py", dict(funcs=cases, eqs=eq_reqs, sweeps=sweep_reqs), timeout=900)
     if res is None:
         chk.tie_broken("impl/radial.py", f"implementation run failed rc={rc}: {(o + e)[-1500:]}")
         return
+    nsw = 0
+    worst_sw = {}
+    for q, r in zip(sweep_reqs, res.get("sweeps", [])):
+        rows = r["rows"]
+        rng_psi = abs(q["upper"] - q["lower"])
+        for k in range(1, len(rows) - 1):
+            a, b, c3 = rows[k - 1], rows[k], rows[k + 1]
+            if a is None or b is None or c3 is None:
+                continue
+            # a smooth dependence has second differences O(delta^2); a jump of the function at some ratio shows up at full size
+            sd = float(np.max(np.abs(np.array(a) - 2 * np.array(b) + np.array(c3)))) / rng_psi
+            nsw += 1
+            key = f"{q['which']}"
+            worst_sw[key] = max(worst_sw.get(key, 0.0), sd)
+            if sd > 2e-3:
+                chk.fail(f"discontinuous-in-parameters:{q['which']}", "the radial spacing function jumps when its end-gradient parameter varies continuously (it must vary continuously with its parameters, also across the switch between its closed forms)",
+                         dict(which_gradient=q["which"], n=q["n"], lower=q["lower"], upper=q["upper"], ratio_before=q["ratios"][k - 1], ratio_at=q["ratios"][k], ratio_after=q["ratios"][k + 1],
+                              jump_as_fraction_of_psi_range=sd))
+                break
+        if r["errors"] > len(rows) // 3:
+            chk.fail(f"refused:sweep:{q['which']}", "getSmoothMonotonicGridFunc refuses more than a third of a sweep of legal end-gradient ratios", dict(n=q["n"], lower=q["lower"], upper=q["upper"], errors=r["errors"], of=len(rows)))
+    chk.notes["parameter_continuity_worst_second_difference"] = worst_sw
     nval = nprop = 0
     dist = {}
     for c, r in zip(cases, res["funcs"]):
